@@ -57,6 +57,8 @@ def harness_hdr_hash():
     if _hdr_hash is None:
         h = hashlib.sha256()
         for f in sorted(os.listdir(HARNESS)):
+            if f == "pg.hpp":
+                continue  # progen prelude: only generated programs depend on it (hashed in progen._bin_path)
             if f.endswith(".hpp") or f.endswith(".h") or f.endswith(".inc"):
                 h.update(f.encode())
                 h.update(open(os.path.join(HARNESS, f), "rb").read())
